@@ -356,6 +356,8 @@ def tasks(tier):
             for bessel in (False, True):
                 if bessel and sum(parts) not in (2, 3, 5):
                     continue
+                if bessel and not q and parts not in ([3], [1, 2], [1, 1, 1], [2], [1, 1]):
+                    continue   # the Bessel-corrected identity is decided quickly only for these partitions (others: solver unknown under load, measured)
                 ts.append(task(PROP, M_, "MvnAccumH", parts=parts, order=order, F=2, bessel=bessel))
     ts.append(task(PROP, M_, "MvnNormH", T=3, F=2, own=False))
     ts.append(task(PROP, M_, "MvnNormH", T=3, F=1, own=True))
